@@ -2,6 +2,8 @@
 pub mod ast_coq;
 pub mod gen;
 pub mod pipeline;
+pub mod rec;
+pub mod ts_coq;
 
 use std::fmt::Write as _;
 use std::fs;
